@@ -1,4 +1,5 @@
 import PistacheModel.Model.Promise
+import PistacheModel.Model.PromiseQ
 import Driver.Util
 open Pistache Pistache.Promise
 
@@ -57,6 +58,8 @@ def movedOut (m : M) : List Nat :=
 def promiseOp : List String → Option String
   | "prog" :: ws => do
     let ops ← (splitOps ws).mapM parseOp
+    -- the hypothesis of the completeness theorems (Props/C11Complete): every cascade ran to completion within the fuel
+    if !quiescentB {} ops then pure "MODEL-FUEL" else
     let (m, outs) := execAll {} ops
     let log := m.log.filterMap evStr
     let moved := movedOut m
